@@ -257,9 +257,18 @@ fn run_boot(h: &HCtx, ops: &[String], start: usize, restarted: bool, lines: &Ref
             }
         };
         let mut subs: Vec<String> = Vec::new();
+        let mut cancelled = false;
         im_state.verif_subscriptions().verif_visit(&mut |it| {
-            if let rs_matter::im::subscriptions::VerifItem::Sub(v) = it {
-                subs.push(format!("{}.{}", v.fab_idx, v.peer_node_id));
+            // A subscription whose report is in flight is outside the table for that time; it
+            // counts unless it has been cancelled (then it is dropped when the attempt ends).
+            use rs_matter::im::subscriptions::VerifItem;
+            match it {
+                VerifItem::Counters { reporting_cancelled, .. } => cancelled = reporting_cancelled,
+                VerifItem::Sub(v) => subs.push(format!("{}.{}", v.fab_idx, v.peer_node_id)),
+                VerifItem::Reporting(v) if !cancelled => {
+                    subs.push(format!("{}.{}", v.fab_idx, v.peer_node_id))
+                }
+                _ => {}
             }
         });
         subs.sort();
